@@ -96,6 +96,10 @@ def build(case):
     raise ValueError(v)
 
 
+def rl_decode_1d(x):
+    return x.to_array() if hasattr(x, "to_array") else np.asarray(x)
+
+
 def close(a, b, rtol):
     try:
         if isinstance(a, list) and isinstance(b, list) and a and all(isinstance(x, list) for x in a) and all(isinstance(x, list) for x in b):
@@ -129,6 +133,17 @@ def run(case):
             return violated("%s raised %r" % (desc, a), tags)
         if a.value != ("2d", exp.tolist()):
             return violated("%s decodes to %s, expected %s" % (desc, short(a.value[1], 200), short(exp.tolist(), 200)), tags)
+        # the ragged class built the same way (every row as long as the common row length): decoding, row sums, column counts and column means
+        if len(starts) and int(L) > 0:
+            CTX.tick("c17:intervals-ragged")
+            RR = lib.RunLengthRaggedArray
+            b = attempt(lambda: RR.from_intervals(starts, ends, L, val))
+            if b.ok:
+                chk = attempt(lambda: (to_rows(b.value)[1], np.asarray(b.value.sum(axis=-1)).tolist(), np.asarray(rl_decode_1d(b.value.col_counts())).tolist(), np.asarray(rl_decode_1d(b.value.mean(axis=0))).tolist()))
+                want = (exp.tolist(), exp.sum(axis=-1).tolist(), [len(starts)] * int(L), exp.mean(axis=0).tolist())
+                if not chk.ok or chk.value[0] != want[0] or chk.value[1] != want[1] or chk.value[2] != want[2] or not np.allclose(chk.value[3], want[3], rtol=1e-12, atol=0):
+                    return violated("RunLengthRaggedArray.from_intervals(%s, %s, %d, %r): rows / row sums / column counts / column means are %s, expected %s" % (
+                        starts.tolist(), ends.tolist(), L, val, repr(chk) if not chk.ok else short(chk.value, 260), short(want, 260)), tags + ["intervals:ragged"])
         return held(tags, len(starts) >= 2)
 
     variant = case["variant"]
